@@ -75,6 +75,21 @@ func (f *Mod) Call(s *slip.Scope, args slip.List, depth int) (result slip.Object
 			_ = z.Add(&z, div)
 		}
 		result = (*slip.Bignum)(&z)
+	case *slip.Ratio:
+		div := (*big.Rat)(d.(*slip.Ratio))
+		if div.Sign() == 0 {
+			slip.ArithmeticPanic(s, depth, slip.Symbol("/"), args, "divide by zero")
+		}
+		// The exact remainder of the floor division, num - q * div.
+		var (
+			zq big.Rat
+			q  big.Int
+		)
+		_ = zq.Quo((*big.Rat)(num), div)
+		_ = q.Div(zq.Num(), zq.Denom())
+		_ = zq.SetInt(&q)
+		_ = zq.Mul(&zq, div)
+		result = ratReduce(zq.Sub((*big.Rat)(num), &zq))
 	case slip.Real:
 		div := (d.(slip.Real)).RealValue()
 		if div == 0.0 {
